@@ -754,6 +754,10 @@ func (d *DNS) SerializeTo(b gopacket.SerializeBuffer, opts gopacket.SerializeOpt
 	if err != nil {
 		return err
 	}
+	// record encoders do not write every byte they sized (short addresses, empty rdata): start from zeros
+	for i := range bytes {
+		bytes[i] = 0
+	}
 	binary.BigEndian.PutUint16(bytes, d.ID)
 	bytes[2] = byte((b2i(d.QR) << 7) | (int(d.OpCode) << 3) | (b2i(d.AA) << 2) | (b2i(d.TC) << 1) | b2i(d.RD))
 	bytes[3] = byte((b2i(d.RA) << 7) | (int(d.Z&0x7) << 4) | int(d.ResponseCode&0xf))
